@@ -222,10 +222,12 @@ def run_property(modname: str, tier: str, seed: int, update_ledger: bool = False
             suffix = " no-failing-input-found"
         path.write_text(json.dumps(rec, indent=1, default=str) + "\n")
         violations.append({"obligation": v.name, "replay": str(path), "suffix": suffix})
+    n_conc = 0
     for c in conc_results:
         if c.get("found") and id(c) not in used_conc and not c.get("known"):
             safe = re.sub(r"[^A-Za-z0-9_.=@-]+", "_", str(c.get("for") or "concrete"))[:150]
-            path = rdir / f"{safe}.concrete.json"
+            n_conc += 1
+            path = rdir / (f"{safe}.concrete.json" if n_conc == 1 else f"{safe}.{n_conc}.concrete.json")
             path.write_text(json.dumps({"property": prop, **c}, indent=1, default=str) + "\n")
             violations.append({"obligation": str(c.get("for")), "replay": str(path), "suffix": ""})
 
